@@ -288,6 +288,17 @@ func (r *Reader) initFields() error {
 			// directory itself (e.g. "./", "/").
 			continue
 		}
+		// Only directories can have children. Together with rejecting hardlinks
+		// to directories (below), this keeps the tree built from an untrusted
+		// TOC acyclic.
+		for p := pdirName; ; p = parentDir(p) {
+			if pe, ok := r.m[p]; ok && pe.Type != "dir" {
+				return fmt.Errorf("%q is placed under %q which is not a directory", name, p)
+			}
+			if p == "" {
+				break
+			}
+		}
 		pdir := r.getOrCreateDir(pdirName)
 		ent.NumLink++ // at least one name(ent.Name) references this entry.
 		if ent.Type == "hardlink" {
